@@ -40,7 +40,7 @@ ASSUMPTIONS = [
     '(set_outputs after renaming outputs: names of de-selected outputs are '
     'dropped, as a fresh model would show them)',
     'reference integrator behind myokit.Simulation (DESIGN 2.2)',
-    'a ReducedMechanisticModel is not wrapped around a model with a sensitivity subset (no documented meaning)',
+    'a ReducedMechanisticModel wrapped around a model with enabled sensitivities takes them over (all free parameters, as the wrapper defines since the repair of its constructor)',
     'a configuration call that the model refuses (KeyError / ValueError for outputs that do not exist for the new route) must leave the model unchanged; it does not count as part of the net configuration',
 ]
 ANCHORS = [
@@ -480,12 +480,14 @@ def apply(ctx, rng, tg, m, st, op, side, hist):
         orig = inv.get(names[j], names[j])
         st.onames[orig] = new
     elif k == 'wrap':
-        # (a wrapper around a model with a sensitivity *subset* has no
-        # documented meaning: not generated)
-        if red or (st.sens and st.sens_sub is not None):
+        # (a wrapper around a model with enabled sensitivities takes them
+        # over: sensitivities with respect to all free parameters, also
+        # when a subset had been selected on the wrapped model)
+        if red:
             return None
         m = chi.ReducedMechanisticModel(m)
         st.reduced = True
+        st.sens_sub = None
         return m, st
     elif k == 'fix':
         if not red:
